@@ -73,7 +73,7 @@ type adapter struct {
 	// equals the original bytes are the SAME message for the recipient (a semantic no-op, e.g. a
 	// byte string longer than the fixed-size array it is decoded into).
 	norm func(round int, bcast bool, b []byte) []byte
-	thoroughOnly bool
+	noParallel bool // skip the parallel-session run (expensive protocols)
 }
 
 func normAs[M any](b []byte) []byte {
@@ -178,7 +178,12 @@ func adapters(tier string) []*adapter {
 			}
 			return nil
 		}},
-		{name: "boldyreva", modelled: true, run: runBls},
+		{name: "boldyreva", modelled: true, run: func(seed int64, label string, hook drive.Hook) *outcome {
+			return runBls(seed, label, hook, []sharing.ID{1, 2}) // minimal quorum: an unusable partial signature cannot be made up for
+		}},
+		{name: "boldyreva-3", run: func(seed int64, label string, hook drive.Hook) *outcome {
+			return runBls(seed, label, hook, parties) // redundant quorum: the others may still reach the threshold
+		}},
 		{name: "dkls23", modelled: true, run: func(seed int64, label string, hook drive.Hook) *outcome {
 			return runDkls(seed, label, hook, "bbot", dklsQuorum)
 		}, norm: func(r int, bc bool, b []byte) []byte {
@@ -204,9 +209,9 @@ func adapters(tier string) []*adapter {
 		{name: "canetti", run: runCanetti},
 		{name: "dkls23-softspoken", run: func(seed int64, label string, hook drive.Hook) *outcome {
 			return runDkls(seed, label, hook, "softspoken", []sharing.ID{1, 2})
-		}},
-		{name: "lindell17", run: runL17},
-		{name: "cggmp21", run: runCggmp},
+		}, noParallel: true},
+		{name: "lindell17", run: runL17, noParallel: true},
+		{name: "cggmp21", run: runCggmp, noParallel: true},
 	}
 }
 
@@ -519,8 +524,10 @@ func runCanetti(seed int64, label string, hook drive.Hook) *outcome {
 
 // ---- boldyreva (threshold BLS, one round + aggregator) ---------------------------------
 
-func runBls(seed int64, label string, hook drive.Hook) *outcome {
-	res := dbls.RunFull(dbls.Config{Common: common(seed, label, hook), Policy: policy, KeySize: "short", Mode: "basic"})
+func runBls(seed int64, label string, hook drive.Hook, quorum []sharing.ID) *outcome {
+	c := common(seed, label, hook)
+	c.Quorum = quorum
+	res := dbls.RunFull(dbls.Config{Common: c, Policy: policy, KeySize: "short", Mode: "basic"})
 	o := &outcome{tr: res.Trace, ids: res.Quorum, agg: true, setupErr: res.SetupErr}
 	o.judge = func(dev sharing.ID) (bad []finding, returned []sharing.ID) {
 		if res.Sig == nil {
